@@ -241,9 +241,9 @@ def random_script(rng, U=2, nprocs=None, maxlen=30, hostile=0.15, shutdown=0.25,
             if r < 0.30:
                 acts.append(['exit', rng.randrange(4), rng.choice([0, 0, 1, 2])])
             elif r < 0.36:
-                acts.append(['sigdie', rng.randrange(4), rng.choice([9, 11, 15])])
+                acts.append(['sigdie', rng.randrange(4), rng.choice([9, 11, 15, 6, 40, 64, 127, 139])])
             elif r < 0.40:
-                acts.append(['unknown', rng.choice([0, 256, 9])])
+                acts.append(['unknown', rng.choice([0, 256, 9, 40, 127, 139, 65280])])
             elif r < 0.40 + rpcw:
                 req += 1
                 kind = rng.random()
